@@ -22,5 +22,8 @@ CaseRec ==
 \* one line per input class and pre-state: the successor that keeps the phase is the representative
 EmitCase == IF last'.kind = "feed" /\ (phase' = phase \/ phase' = "crashed")
             THEN PrintT(<<"CASE", ToJson(CaseRec)>>) ELSE TRUE
+\* simulation (sequences of inputs): only the successor that keeps the phase is followed, so that the phase in a
+\* printed case is the one the genuine traffic of its history establishes; every edge out of every visited state is printed
+EmitCaseSim == (last'.kind = "feed" => phase' = phase) /\ EmitCase
 NoEmit   == TRUE
 =============================================================================
